@@ -2,14 +2,76 @@
 import random
 
 from vlib import *  # noqa
+from vlib import _collect_prints as vlib_collect
 
-CLAUSES = {"not_preempted", "co_error", "syscall_preempted", "result_changed", "unfinished", "abort", "hang", "panic"}
+CLAUSES = {"monitor_skipped", "signal_ignored", "sibling_not_run", "monitor_dead", "co_error", "syscall_preempted", "result_changed",
+           "unfinished", "abort", "hang", "panic"}
+TIMING = {"monitor_dead"}
+MIG_CLAUSES = {"foreign_current", "stale_current", "order", "unfinished", "abort", "hang", "panic"}
+
+
+def migrate_stage(v, wd, tier, cov):
+    """Migrate.tla: the per-thread current-suspender stacks - what the SIGURG handler and every hooked call
+    look at - while yielded coroutines are stolen and resumed by other scheduling threads."""
+    bindir = build_harness(bins=["mig"])
+    mc_runs("Migrate", [("MC_Migrate.cfg", None), ("MC_Migrate_cached_tls.cfg", "CurrentExact")], tier, cov)
+    thorough = tier == "thorough"
+    scs = []
+    rnd = random.Random(seed())
+    for rep in range(6 if thorough else 1):
+        # forced: thread 1 starts every coroutine, then blocks inside its last one while the others steal
+        for threads, cos, susp in ((2, 8, 3), (3, 24, 2), (4, 40, 4), (8, 120, 3)):
+            scs.append({"threads": threads, "cos": cos, "susp": susp, "work": 2000, "stop_ms": 30, "src": "forced-steal"})
+        # free running
+        for threads, cos, susp in ((2, 16, 4), (4, 64, 3)):
+            scs.append({"threads": threads, "cos": cos, "susp": susp, "work": rnd.choice([500, 2000, 20000]), "stop_ms": 0, "src": "free"})
+        scs.append({"threads": 1, "cos": 8, "susp": 3, "work": 2000, "stop_ms": 0, "src": "one-thread"})
+    for i, s in enumerate(scs):
+        s["id"] = i + 1
+        s["timeout_ms"] = 12000
+    tpath = drive(bindir, "mig", scs, wd, "greset", "gend", timeout=3000, tag="_mig")
+    sanitize_ndjson(tpath, "gend")
+    info = validate_full("Trace_Migrate", tpath)
+    byid = {s["id"]: s for s in scs}
+    for x in info["viols"]:
+        sc = byid.get(x[2], {})
+        if x[1] in MIG_CLAUSES:
+            v.add({"clause": "migrate_" + x[1], "scenario_id": x[2], "trace_index": x[0], "detail": x[3] if len(x) > 3 else None,
+                   "threads": sc.get("threads"), "stress": False, "death": x[1] in ("abort", "hang", "panic"),
+                   "driver": "mig", "scenario": sc})
+    class _R:  # noqa
+        prints = vlib_collect(info["out"])
+    moved = {st[0]: st[1] for st in prints_tagged(_R, "STAT")}
+    forced = [s["id"] for s in scs if s["src"] == "forced-steal"]
+    dead = {x[2] for x in info["viols"] if x[1] in ("abort", "hang", "panic", "unfinished")}
+    idle = [i for i in forced if moved.get(i, 0) == 0 and i not in dead]
+    if idle:
+        v.note("migrate: %d forced-steal scenario(s) saw no migration (not exercised): %s" % (len(idle), idle[:5]))
+    if not any(moved.get(i, 0) > 0 for i in forced) and not dead:
+        raise ToolError("migrate stage: no scenario produced a migration - the stage is vacuous")
+    seg = first_segment(tpath, "greset", "gend", want=lambda s: s[0].get("stop_ms", 0) > 0 and not any(r.get("ev") == "died" for r in s), maxlen=2000)
+    if seg:
+        c1 = [dict(r) for r in seg]
+        done = False
+        for r in c1:
+            if r.get("ev") == "g_body" and r.get("k", 0) >= 1 and not done:
+                r["cur"] = 0
+                done = True
+        c2 = [dict(r) for r in seg]
+        for r in c2:
+            if r.get("ev") == "g_idle":
+                r["cur"] = -1
+        cov.setdefault("selftest", {}).update(selftest_mutations("Trace_Migrate", wd, {"mig_corrupt_current": c1, "mig_stale_idle": c2}))
+    cov["migrate"] = {"scenarios": len(scs), "records": info["total"], "migrations_observed": sum(moved.values()),
+                      "forced_scenarios_with_migration": sum(1 for i in forced if moved.get(i, 0) > 0)}
+    return len(scs), info["total"], scs[0]
 
 
 def run(pid, tier):
     v = Verdict(pid, tier)
     wd = workdir(pid)
     cov = {}
+    n_mig, rec_mig, sample_mig = migrate_stage(v, wd, tier, cov)
     bindir = build_harness("preemptive", bins=["preempt"])
     mc_runs("Monitor", [("MC_Monitor.cfg", None), ("MC_Monitor_unsync_set.cfg", "NotCorrupt")], tier, cov)
     thorough = tier == "thorough"
@@ -19,6 +81,9 @@ def run(pid, tier):
         for threads in (1, 2, 4, 8):
             for busy in ("running", "syscall"):
                 scs.append({"threads": threads, "shorts": 0, "busy": busy, "stress": False, "src": "grid"})
+        # a late SIGURG while the coroutine is already inside its system call (delivered by the driver)
+        for threads in (1, 4):
+            scs.append({"threads": threads, "shorts": 0, "busy": "syscall", "sig_self": True, "stress": False, "src": "late-signal-in-syscall"})
         scs.append({"threads": 1, "shorts": 300, "busy": "running", "stress": False, "src": "one-thread-many-short"})
         scs.append({"threads": 2, "shorts": 50, "busy": "running", "stress": False, "src": "two-threads-some-short"})
         # many scheduling threads and many short coroutines: the open known finding lives here
@@ -28,27 +93,58 @@ def run(pid, tier):
         s["id"] = i + 1
         s["timeout_ms"] = 15000
     tpath = drive(bindir, "preempt", scs, wd, "mreset", "mend", timeout=3000)
+    sanitize_ndjson(tpath, "mend")
     info = validate_full("Trace_Monitor", tpath)
     byid = {s["id"]: s for s in scs}
+
+    class _R:  # noqa
+        prints = vlib_collect(info["out"])
+    scans = {st[0]: st[1] for st in prints_tagged(_R, "STAT")}
     for x in info["viols"]:
         sc = byid.get(x[2], {})
         rec = {"clause": x[1], "scenario_id": x[2], "trace_index": x[0], "detail": x[3] if len(x) > 3 else None,
                "threads": sc.get("threads"), "shorts": sc.get("shorts"), "busy": sc.get("busy"), "stress": sc.get("stress"),
                "death": x[1] in ("abort", "hang", "panic", "unfinished"), "driver": "preempt", "scenario": sc}
+        if x[1] in TIMING:
+            # timing clause: must reproduce in 2 of 2 further attempts of the same scenario run alone
+            again = 0
+            for k in range(2):
+                one = dict(sc)
+                one["id"] = 1
+                t2 = drive(bindir, "preempt", [one], wd, "mreset", "mend", timeout=600, tag="_retry%d" % k)
+                sanitize_ndjson(t2, "mend")
+                i2 = validate_full("Trace_Monitor", t2)
+                again += 1 if any(y[1] == x[1] for y in i2["viols"]) else 0
+            if again < 2:
+                v.note("timing clause %s of scenario %s did not reproduce (%d of 2): not reported" % (x[1], x[2], again))
+                continue
         if x[1] in CLAUSES:
             v.add(rec)
-    seg = first_segment(tpath, "mreset", "mend", want=lambda s: s[0].get("busy") == "running" and any(r.get("ev") == "quick" for r in s) and
-                        any(r.get("ev") == "busy_e" for r in s), maxlen=5000)
+    idle = [i for i, n in scans.items() if n == 0 and byid.get(i, {}).get("busy") == "running"]
+    if idle:
+        v.note("preempt: the monitor made no scan in scenario(s) %s (machine too busy?): the preemption clauses were not exercised there" % idle[:6])
+    if scans and all(n == 0 for n in scans.values()):
+        raise ToolError("preempt stage: the monitor thread was never observed scanning - the stage is vacuous")
+    seg = first_segment(tpath, "mreset", "mend", want=lambda s: s[0].get("busy") == "running" and s[0].get("threads") == 1 and
+                        any(r.get("ev") == "mon_sig" for r in s) and any(r.get("ev") == "busy_e" for r in s) and
+                        not any(r.get("ev") == "died" for r in s), maxlen=5000)
     if seg:
-        c1 = [r for r in seg if r.get("ev") != "quick"]
-        c2 = [dict(r) for r in seg]
-        for r in c2:
+        # the handler "ignores" the signal: no Suspend of the busy coroutine is ever reported
+        c1 = [r for r in seg if not (r.get("ev") == "chg" and r.get("co") == 1 and r.get("new") == "Suspend")]
+        # the monitor "skips" the overdue thread: no signal is ever reported, the coroutine is never suspended
+        first_sus = next((i for i, r in enumerate(seg) if r.get("ev") == "chg" and r.get("co") == 1 and r.get("new") == "Suspend"), None)
+        c2 = [r for i, r in enumerate(seg) if r.get("ev") != "mon_sig" and not (r.get("ev") == "chg" and r.get("co") == 1 and r.get("new") in ("Suspend", "Running") and
+                                                                               first_sus is not None and i >= first_sus)]
+        c3 = [dict(r) for r in seg]
+        for r in c3:
             if r.get("ev") == "busy_e":
                 r["ok"] = False
-        cov["selftest"] = selftest_mutations("Trace_Monitor", wd, {"delete_quick": c1, "corrupt_result": c2})
-    cov["traces_validated_against_impl"] = len(scs)
-    cov["trace_records"] = info["total"]
-    cov["samples"] = [scs[0], scs[-1]]
+        c4 = [r for r in seg if r.get("ev") != "quick"]
+        cov.setdefault("selftest", {}).update(selftest_mutations("Trace_Monitor", wd, {
+            "drop_suspends": c1, "drop_signals": c2, "corrupt_result": c3, "delete_quick": c4}))
+    cov["traces_validated_against_impl"] = len(scs) + n_mig
+    cov["trace_records"] = info["total"] + rec_mig
+    cov["samples"] = [scs[0], scs[-1], sample_mig]
     cov["exhaustive"] = False
     return v.finish(cov, assumptions=["signal preemption works in this sandbox (checked: a busy coroutine is suspended after about 10 ms)",
                                       "the busy computation is calibrated to about 45 ms; 'not preempted' needs >= 30 ms without the quick coroutine running",
